@@ -161,6 +161,14 @@ def run(chk):
     al19 = RuleAlias(chk, 'R01.19', lambda rule, inst: rule == 'R03.3' and inst.startswith('readers'))
     c03.love_readers(al19, repo)
     chk.floor('R01.19', 3)
+    # ---- R01.20: the tidal surface values the driver imposes by default (solve_for=None) and on request, dimensional and non-dimensionalised (C02's boundary-table rule under C01:
+    #      a uniform body solved with nondimensionalize=False must give the closed form as well)
+    from . import c02
+    al20 = RuleAlias(chk, 'R01.20', lambda rule, inst: rule == 'R02.2' and ('default' in inst or "('tidal',)" in inst))
+    c02.bc_table(al20, repo, d, make_eq(al20, d))
+    chk.floor('R01.20', 4)
+    from .common import unsigned_negation_lint
+    unsigned_negation_lint(chk, repo, 'R01.17', ['TidalPy/RadialSolver/**/*.pyx', 'TidalPy/utilities/dimensions/*.pyx'])
     chk.floor('R01.1', 8 + 36 * 4 + 16 * 2 + 4 * 2); chk.floor('R01.2', 6); chk.floor('R01.3', 17); chk.floor('R01.5', 3)
     chk.assume('r, rho, g, K, omega > 0; mu complex; l treated as a symbolic real')
 
